@@ -28,7 +28,8 @@ PROPS = {
         'rule': 'expansion: every label tuple of length 1..3 over a 4-label alphabet for 3 namespace/domain configurations plus random hosts of 1..5 labels '
                 '(each also re-expanded); binding: real client with scripted control plane, 4 successive name tables per client (fqdn keys, literal keys, '
                 'both, keys without addresses, upper-case keys), 40 lookups per table with case flips and port forms (none, :80, :8888, empty, two colons); '
-                'end to end: subscribe by host name, push listeners named ip_port, look up. Non-trivial: a host that needs expansion, resolves, or differs from its lower-case form',
+                'end to end: subscribe by host name, push listeners named ip_port, look up. Non-trivial: a host that needs expansion, resolves, or differs from its lower-case form'
+            + ' Six hosts live through all four table updates of a client (their key form - literal, qualified, both with different addresses, none - changes from table to table).',
         'assumptions': COMMON_ASSUME + [
             'domain: ASCII host names (Go strings.ToLower is Unicode-aware, the model lower-cases ASCII only); name-table addresses are non-empty strings',
             'the name table is a Go map (unique keys)',
@@ -45,7 +46,8 @@ PROPS = {
         'rule': 'random listeners (0-3 filter chains, Thrift-proxy and HTTP filters in any order, inline and/or named tables, missing listener / missing named table), '
                 'tables of 0-3 virtual hosts x 0-4 routes with overlapping path and header predicates (exact / prefix / regex, unique header names), nil matches, '
                 'metadata maps with present / absent / empty values, gRPC and non-gRPC, default (metainfo) and custom metadata extractor; every case is routed through '
-                'the real XDSRouter.Route; routes are distinguishable by a unique single cluster and timeout. Non-trivial: at least two routes of the case are eligible for the call',
+                'the real XDSRouter.Route; routes are distinguishable by a unique single cluster and timeout. Non-trivial: at least two routes of the case are eligible for the call'
+            + ' The regex alphabet includes three expressions that accept the empty string; the truth table always includes "".',
         'assumptions': COMMON_ASSUME + [
             'the regular-expression engine (Go regexp) is a parameter of the model; the theorems hold for every engine; in correspondence runs the harness supplies the truth table',
             'with several filter chains the router uses the last HTTP and the last Thrift-proxy filter (modelled as is; the property does not say which)',
@@ -115,11 +117,13 @@ PROPS = {
                       'through the interest filter and, for listeners, the C14 binding with the name table current at that response; an accepted full-type response that does not; an eviction). Corollaries: full types replace, '
                       'merge types keep, latest wins, rejected and other-type responses are not in the fold, never_unsolicited (anything served was carried by an accepted response while subscribed), lds_binding / lds_literal, '
                       'duplicate names count once. Stated for the facts regenerated from client.go / manager.go / xdsresource.go (bridge facts_seq: full types, handler shapes, UpdateResource statement order, capacities). '
-                      'The state machine is validated by replaying real histories step by step (trace validation) and the backward-scan spec is evaluated directly on the implementation snapshots.',
+                      'The state machine is validated by replaying real histories step by step (trace validation) and the backward-scan spec is evaluated directly on the implementation snapshots.'
+            + ' With concurrent lookups (composed model Sys = Seq x Conc, Model/Sys.lean): served_eq_fold_concurrent and lookups_read_the_served_cache hold for every schedule whose response handlers run their three lock sections back to back, any number of lookup threads; cached_is_subscribed: in every reachable state a cached name is in the interest set.',
         'level_note': 'Trusted: Lean kernel; extractor (syntactic shape recognisers); scripted control plane and quiescence detection (verif hooks); decoders at stamp level.',
     },
     'C02': {
-        'rule': 'histories of 30-50 steps against a real manager and the scripted control plane, two thirds with the name table required (Istio) and one third without: lookups (hits, misses, repeated) of 3-5 names per type, full and partial pushes of all four cached types with random subsets, unsolicited extras, duplicate names and undecodable slots (wrong type URL / invalid bytes), name-table updates (4 tables, empty and undecodable ones), unknown-type responses, stream failures (Recv error with reconnect, Send failure, creation failure in the thorough tier) and authentication stops; after every step the client is brought to quiescence and requests (per stream), cache snapshot, interest sets, versions, nonces, name table are observed and the whole trace is validated step by step against the state machine. ' + 'Generator biased to 40% undecodable pushes. Non-trivial: the history contains a rejected response',
+        'rule': 'histories of 30-50 steps against a real manager and the scripted control plane, two thirds with the name table required (Istio) and one third without: lookups (hits, misses, repeated) of 3-5 names per type, full and partial pushes of all four cached types with random subsets, unsolicited extras, duplicate names and undecodable slots (wrong type URL / invalid bytes), name-table updates (4 tables, empty and undecodable ones), unknown-type responses, stream failures (Recv error with reconnect, Send failure, creation failure in the thorough tier) and authentication stops; after every step the client is brought to quiescence and requests (per stream), cache snapshot, interest sets, versions, nonces, name table are observed and the whole trace is validated step by step against the state machine. ' + 'Generator biased to 40% undecodable pushes. Non-trivial: the history contains a rejected response'
+            + ' Undecodable slots are of three kinds: wrong type URL, invalid bytes, and valid protobuf of the right type rejected for its content with the error attributed to the resource name (route without action; filter chain whose connection-manager payload does not parse).',
         'assumptions': COMMON_ASSUME + ['E2: the control plane answers, it does not speak first (scripted so)'],
         'level_text': 'Theorems about one response in an arbitrary state: exactly one request is enqueued, of that type, echoing the nonce, listing the interest set, with the response version and no error iff every slot decoded, else with '
                       'the previous version and an error (ack_exact); a rejected response leaves cache, name table, version, interest and access bookkeeping unchanged (nack_frame); unknown and never-subscribed types change nothing and enqueue nothing; '
@@ -127,26 +131,31 @@ PROPS = {
         'level_note': 'Trusted: Lean kernel; extractor (ackShape, earlyReturn); harness. The non-empty error message of a failed decode is carried by the ackShape fact + C13.',
     },
     'C03': {
-        'rule': 'histories of 30-50 steps against a real manager and the scripted control plane, two thirds with the name table required (Istio) and one third without: lookups (hits, misses, repeated) of 3-5 names per type, full and partial pushes of all four cached types with random subsets, unsolicited extras, duplicate names and undecodable slots (wrong type URL / invalid bytes), name-table updates (4 tables, empty and undecodable ones), unknown-type responses, stream failures (Recv error with reconnect, Send failure, creation failure in the thorough tier) and authentication stops; after every step the client is brought to quiescence and requests (per stream), cache snapshot, interest sets, versions, nonces, name table are observed and the whole trace is validated step by step against the state machine. ' + 'Generator biased to 60% lookups. Non-trivial: at least 10 steps',
+        'rule': 'histories of 30-50 steps against a real manager and the scripted control plane, two thirds with the name table required (Istio) and one third without: lookups (hits, misses, repeated) of 3-5 names per type, full and partial pushes of all four cached types with random subsets, unsolicited extras, duplicate names and undecodable slots (wrong type URL / invalid bytes), name-table updates (4 tables, empty and undecodable ones), unknown-type responses, stream failures (Recv error with reconnect, Send failure, creation failure in the thorough tier) and authentication stops; after every step the client is brought to quiescence and requests (per stream), cache snapshot, interest sets, versions, nonces, name table are observed and the whole trace is validated step by step against the state machine. ' + 'Generator biased to 60% lookups. Non-trivial: at least 10 steps'
+            + ' Plus one stalled burst: the connection stalls (Send blocks) while 1040 lookups miss distinct names - more than the request channel holds - and resumes; request i must list the first i names, none may be lost.',
         'assumptions': COMMON_ASSUME + ['lookups in these histories are sequential; concurrent lookups are C05-C07 (each registration is one critical section under m.mu and c.mu)'],
         'level_text': 'Theorems: a request built by a subscription change or an acknowledgement lists exactly the interest set after the change; only subscribe (a lookup missed) and evict change the interest set, and membership after any history '
                       'is decided by the most recent subscribe/evict of the name; invariant over all reachable states (with stream faults at any position): unless a reconnect is in progress or the sender lost its stream, the last request of every watched type '
-                      'on the live stream - sent or queued - lists the interest set (last_request_tracks_interest), hence at quiescence the last request on the wire equals the interest set; the queue is never stale.',
+                      'on the live stream - sent or queued - lists the interest set (last_request_tracks_interest), hence at quiescence the last request on the wire equals the interest set; the queue is never stale.'
+            + ' Concurrent forms through the composed model (quiescent_last_request_concurrent, interest_is_history_concurrent, only_notifier_creation_subscribes).',
         'level_note': 'Trusted: Lean kernel; extractor (watchShape); harness.',
     },
     'C04': {
-        'rule': 'histories of 30-50 steps against a real manager and the scripted control plane, two thirds with the name table required (Istio) and one third without: lookups (hits, misses, repeated) of 3-5 names per type, full and partial pushes of all four cached types with random subsets, unsolicited extras, duplicate names and undecodable slots (wrong type URL / invalid bytes), name-table updates (4 tables, empty and undecodable ones), unknown-type responses, stream failures (Recv error with reconnect, Send failure, creation failure in the thorough tier) and authentication stops; after every step the client is brought to quiescence and requests (per stream), cache snapshot, interest sets, versions, nonces, name table are observed and the whole trace is validated step by step against the state machine. ' + 'Generator biased to 22% faults; plus one stop-flood case (1030 missed lookups after an authentication stop, then a cached lookup, under a watchdog). Non-trivial: the history contains a reconnect or a stop',
+        'rule': 'histories of 30-50 steps against a real manager and the scripted control plane, two thirds with the name table required (Istio) and one third without: lookups (hits, misses, repeated) of 3-5 names per type, full and partial pushes of all four cached types with random subsets, unsolicited extras, duplicate names and undecodable slots (wrong type URL / invalid bytes), name-table updates (4 tables, empty and undecodable ones), unknown-type responses, stream failures (Recv error with reconnect, Send failure, creation failure in the thorough tier) and authentication stops; after every step the client is brought to quiescence and requests (per stream), cache snapshot, interest sets, versions, nonces, name table are observed and the whole trace is validated step by step against the state machine. ' + 'Generator biased to 22% faults; plus one stop-flood case (1030 missed lookups after an authentication stop, then a cached lookup, under a watchdog). Non-trivial: the history contains a reconnect or a stop'
+            + ' Plus: 6 stalled reconnects (the sender is stuck in Send on the dying stream while the receiver reconnects and 3-7 lookups miss; whichever the sender picks first afterwards, nothing on the new stream may carry a nonce of the old one and the re-subscription lists every name), and two outages (stream creation fails for 1 and 3 whole reconnect budgets - back-off policy replaced through a verif hook - then succeeds: the client must open a new stream and re-subscribe; the cache is served meanwhile).',
         'assumptions': COMMON_ASSUME + ['E1: a stream whose Send fails will fail Recv; E2: the control plane answers, it does not speak first; back-off timing is not modelled'],
         'level_text': 'Theorems for faults at any position, repeated: nonce_per_stream (16-field invariant of every reachable state: no request on a stream carries a nonce not issued on that stream), resubscribe_on_adopt (one request per watched type, '
                       'full names, kept version, nonce empty or of the new stream), reconnect resets nonces and drains the queue atomically, faults leave cache/versions/interest/table untouched and are not part of the C01 fold, stop is final '
-                      '(closed stays closed, nothing more reaches the wire), lookups never block after the stop (with the regenerated fact that sendRequest gives up on a stopped client).',
+                      '(closed stays closed, nothing more reaches the wire), lookups never block after the stop (with the regenerated fact that sendRequest gives up on a stopped client).'
+            + ' nonce_per_stream_concurrent: the same with lookups racing the failure at section granularity (composed model).',
         'level_note': 'Trusted: Lean kernel; extractor (reconnectShape, sendAborts, reqCap); scripted control plane.',
     },
     'C19': {
         'rule': '8 real managers (16 in the thorough tier), half with the name table, observed around real cleaner ticks (30 s after creation; the thorough tier waits for the second tick at 60 s): every name of the '
                 'rds/cds/eds (and lds without name table) universes is subscribed, cached and put at random into a class: old (looked up, last access back-dated 40 s through a verif hook), fresh (looked up again 1.2 s before the tick), '
                 'never (cached after its lookup timed out, never looked up again), plain (looked up at set-up only); the reserved inbound listener is looked up and back-dated. Evictions are read off the requests of the sweep and replayed '
-                'in the state machine; afterwards an evicted name is looked up again, pushed and looked up. Non-trivial: the sweep evicted something',
+                'in the state machine; afterwards an evicted name is looked up again, pushed and looked up. Non-trivial: the sweep evicted something'
+            + ' Class "relooked": back-dated 10 s, looked up again, moved 5 s forward - 25 s idle at the tick, must stay.',
         'assumptions': COMMON_ASSUME + ['tick timing is the Go runtime ticker; the model sweeps at logical instants (creation = 100, ticks = 130, 160)',
                                          'that the cleaner visits every entry at every tick is the regenerated shape fact cleanerShape plus these runs'],
         'level_text': 'Theorems: the cleaner can remove an entry only if its last access is more than 30 s old and it is not the reserved inbound listener (recent_kept, reserved_kept), and exactly such an entry is removable; '
@@ -216,35 +225,41 @@ PROPS = {
     },
     'C05': {
         'extra_seed_args': ['-noenum'],
-        'rule': "deterministic schedules of real Get goroutines parked at four verif yield points (after the first miss, before the select, after the notifier arm, after the deadline arm), real UpdateResource through the scripted control plane, caller cancellation as the deadline, real eviction body: systematic enumeration (stateless search with re-execution) of all interleavings of four scenarios - one lookup x delivery x deadline; two lookups of one name x delivery x first caller's deadline; two lookups of different names x one delivery x deadline; delivery x eviction racing the wake-up - capped per scenario in the quick tier and complete in the thorough tier (which adds three lookups of one name with two deadlines, and two deliveries with eviction), plus random schedules with 3-6 lookups over two names. The select arm that fired is reported by the hooks; every trace is validated step by step against the interleaving model (each reported step must be enabled and lead to the reported result). " + 'Non-trivial: a delivery falls strictly between some lookup start and its return',
+        'rule': "deterministic schedules of real Get goroutines parked at four verif yield points (after the first miss, before the select, after the notifier arm, after the deadline arm), real UpdateResource through the scripted control plane, caller cancellation as the deadline, real eviction body: systematic enumeration (stateless search with re-execution) of all interleavings of four scenarios - one lookup x delivery x deadline; two lookups of one name x delivery x first caller's deadline; two lookups of different names x one delivery x deadline; delivery x eviction racing the wake-up - capped per scenario in the quick tier and complete in the thorough tier (which adds three lookups of one name with two deadlines, and two deliveries with eviction), plus random schedules with 3-6 lookups over two names. The select arm that fired is reported by the hooks; every trace is validated step by step against the interleaving model (each reported step must be enabled and lead to the reported result). " + 'Non-trivial: a delivery falls strictly between some lookup start and its return'
+            + ' Also: a listener lookup whose first response carries only another listener (a placeholder must never be served), an update arriving while the lookup is stalled inside Watch (client lock held through a verif hook), and five wall-clock cases (fetch timeout / caller deadline / cancellation in each order: error within min + 1.5 s).',
         'assumptions': COMMON_ASSUME + ['wall-clock slack is not a theorem: the model has a deadline event; after it the thread needs one own step that waits only for m.mu',
                                          'kinds: the kind check is the first statement of Get (regenerated fact kindCheckFirst); cached values have the dynamic type of their kind because each decoder produces one type (C11/C12) and the cache is keyed by type',
                                          'Go scheduler, channels, select and sync.RWMutex are trusted'],
         'level_text': 'Theorems over all schedules and any number of threads: no finished lookup has neither value nor error (invariant NoNil, result_shape); a value is returned only by a step of the lookup that reads exactly that value from the cache '
                       '(value_was_served: never a placeholder; with C01 the cache holds only what an accepted response supplied); once the deadline fired the lookup ends with an error in exactly one own step that is always enabled (deadline_bounded); '
                       'every unfinished lookup always has an enabled own step (always_progress). The shape of Get (re-check under the lock, last-waiter cleanup, checked re-read, kind check first) is re-read from manager.go on every run. '
-                      'A decide-checked schedule shows the unchecked re-read returned neither (S8, repaired).',
+                      'A decide-checked schedule shows the unchecked re-read returned neither (S8, repaired).'
+            + ' In the composed model (lookups x client x receiver sections): result_shape_sys, value_is_served_content (the value returned is what the client cache holds at the returning step). Bridge facts_get_body: fingerprint of the bodies of Get / getFromCache / notify.',
         'level_note': 'Trusted: Lean kernel; Go runtime; extractor (getVariant, kindCheckFirst); yield hooks and scheduler of the harness.',
     },
     'C06': {
         'extra_seed_args': ['-noenum'],
-        'rule': "deterministic schedules of real Get goroutines parked at four verif yield points (after the first miss, before the select, after the notifier arm, after the deadline arm), real UpdateResource through the scripted control plane, caller cancellation as the deadline, real eviction body: systematic enumeration (stateless search with re-execution) of all interleavings of four scenarios - one lookup x delivery x deadline; two lookups of one name x delivery x first caller's deadline; two lookups of different names x one delivery x deadline; delivery x eviction racing the wake-up - capped per scenario in the quick tier and complete in the thorough tier (which adds three lookups of one name with two deadlines, and two deliveries with eviction), plus random schedules with 3-6 lookups over two names. The select arm that fired is reported by the hooks; every trace is validated step by step against the interleaving model (each reported step must be enabled and lead to the reported result). " + 'Non-trivial: a delivery falls strictly between some lookup start and its return. The enumerated shapes are exhaustive at yield-point granularity in the thorough tier',
+        'rule': "deterministic schedules of real Get goroutines parked at four verif yield points (after the first miss, before the select, after the notifier arm, after the deadline arm), real UpdateResource through the scripted control plane, caller cancellation as the deadline, real eviction body: systematic enumeration (stateless search with re-execution) of all interleavings of four scenarios - one lookup x delivery x deadline; two lookups of one name x delivery x first caller's deadline; two lookups of different names x one delivery x deadline; delivery x eviction racing the wake-up - capped per scenario in the quick tier and complete in the thorough tier (which adds three lookups of one name with two deadlines, and two deliveries with eviction), plus random schedules with 3-6 lookups over two names. The select arm that fired is reported by the hooks; every trace is validated step by step against the interleaving model (each reported step must be enabled and lead to the reported result). " + 'Non-trivial: a delivery falls strictly between some lookup start and its return. The enumerated shapes are exhaustive at yield-point granularity in the thorough tier'
+            + ' Also the update-during-registration schedule (lookup stalled inside Watch while UpdateResource is called).',
         'assumptions': COMMON_ASSUME + ['when the notifier is closed and the deadline has fired before the goroutine runs, Go picks either select arm: both outcomes are accepted for that lookup',
                                          'an update is "accepted" for the names subscribed when it arrives (C01)'],
         'level_text': 'Theorems over all schedules, any number of threads and names (not 2..3): WaitInv holds in every reachable state (8-field invariant incl. a lower bound of the notifier waiter count by any duplicate-free list of attached threads); '
                       'a delivery that carries the name of a waiting thread closes its notifier in that very step, its wake-up step is enabled and the re-read finds the content (no_lost_wakeup); a delivery landing between the unlocked miss and the registration is returned by the '
-                      'registration step (update_before_registration); a timed-out or cancelled caller leaves every other waiter attached to its notifier (timeout_is_private). decide-checked schedules show both lost wake-ups of the shape before the repairs (S6, S7).',
+                      'registration step (update_before_registration); a timed-out or cancelled caller leaves every other waiter attached to its notifier (timeout_is_private). decide-checked schedules show both lost wake-ups of the shape before the repairs (S6, S7).'
+            + ' sys_no_lost_wakeup: the same guarantee end to end against the real response handling (the delivery is the UpdateResource section of a handler applied to the map its interest filter produced), for every schedule including torn handler sections.',
         'level_note': 'Trusted: Lean kernel; Go runtime (select, channels, RWMutex); extractor (getVariant); yield hooks and scheduler of the harness.',
     },
     'C07': {
         'extra_seed_args': ['-noenum'],
-        'rule': "deterministic schedules of real Get goroutines parked at four verif yield points (after the first miss, before the select, after the notifier arm, after the deadline arm), real UpdateResource through the scripted control plane, caller cancellation as the deadline, real eviction body: systematic enumeration (stateless search with re-execution) of all interleavings of four scenarios - one lookup x delivery x deadline; two lookups of one name x delivery x first caller's deadline; two lookups of different names x one delivery x deadline; delivery x eviction racing the wake-up - capped per scenario in the quick tier and complete in the thorough tier (which adds three lookups of one name with two deadlines, and two deliveries with eviction), plus random schedules with 3-6 lookups over two names. The select arm that fired is reported by the hooks; every trace is validated step by step against the interleaving model (each reported step must be enabled and lead to the reported result). " + 'Non-trivial: a delivery falls strictly between some lookup start and its return. Thorough tier additionally runs the history harness of C01/C03/C04 under the Go race detector (supporting evidence only)',
+        'rule': "deterministic schedules of real Get goroutines parked at four verif yield points (after the first miss, before the select, after the notifier arm, after the deadline arm), real UpdateResource through the scripted control plane, caller cancellation as the deadline, real eviction body: systematic enumeration (stateless search with re-execution) of all interleavings of four scenarios - one lookup x delivery x deadline; two lookups of one name x delivery x first caller's deadline; two lookups of different names x one delivery x deadline; delivery x eviction racing the wake-up - capped per scenario in the quick tier and complete in the thorough tier (which adds three lookups of one name with two deadlines, and two deliveries with eviction), plus random schedules with 3-6 lookups over two names. The select arm that fired is reported by the hooks; every trace is validated step by step against the interleaving model (each reported step must be enabled and lead to the reported result). " + 'Non-trivial: a delivery falls strictly between some lookup start and its return. Thorough tier additionally runs the history harness of C01/C03/C04 under the Go race detector (supporting evidence only)'
+            + ' Plus (a) receiver at lock-section granularity (yield points 5/6): every type x every single extra operation (evict, subscribe, lookup) x every position around the three sections of a response, and random pairs, trace-validated against the composed model; spec: a cached name is subscribed, and no step hangs; (b) handler order: an update parked inside a registered handler while a lookup and a second registration are started - when the lookup exposes the resource every handler registered by then has completed for that update.',
         'assumptions': COMMON_ASSUME + ['DATA RACES ARE NOT EXPRESSIBLE IN THE MODEL (sequentially consistent atomic steps): the claim is partial; what is proved is linearizability of lookups, absence of stuck lookups and of lock-order cycles, and handlers-before-write',
                                          'the lock-nesting edges come from a syntactic intra-package call graph (function names); a full request channel while the sender adopts a stream (needs 1024 unsent requests) is outside the model (documented limitation S12)',
                                          'goroutine leaks and runtime starvation are out of reach'],
         'level_text': 'Theorems over all schedules: a returned value is read by a step of the lookup itself at which the cache holds exactly that value (linearization_point); the cache of a name changes only by an accepted update or an eviction (one atomic register per name); '
                       'an error has a witness (deadline fired, or the resource was gone at the re-read); handlers run before the cache write inside one locked region (regenerated statement order); the regenerated lock-nesting edges (m.mu -> c.mu -> r.mu) are acyclic (decide on an executable '
-                      'topological peel); no reachable state has a stuck lookup. The executable spec checks on every trace that each value was current between start and return and each timeout had a fired deadline.',
+                      'topological peel); no reachable state has a stuck lookup. The executable spec checks on every trace that each value was current between start and return and each timeout had a fired deadline.'
+            + ' Composed model: cached_is_subscribed_atomic (no ghost entries when handlers are not torn), s15_ghost_entry (decide-checked torn schedule: known finding S15), ordered_locks_no_circular_wait (general lemma: a lock order excludes circular waits for any number of threads) with lock_edges_ranked for the regenerated edges.',
         'level_note': 'PARTIAL: data-race freedom is the Go memory model (not modelled); deadlock freedom is proved for the model (mutex order + progress of lookups), not for the request channel at capacity. Trusted: Lean kernel; Go runtime; extractor (lockEdges, updateOrder); harness.',
     },
 }
